@@ -1,4 +1,33 @@
-/- C14 — placeholder; theorems follow -/
+/-
+C14 — readers next to writers.  The full property is FALSE of the design (reads take no
+lock); what is proved: the writers-only part (= C09), and a machine-checked schedule that
+loses a writer's update (the known finding), replayed on the implementation by the check.
+-/
+import SC.Lemmas.Conc
 namespace SC.Props
-theorem C14_placeholder : True := trivial
+open SC.Conc
+
+/-- C14_partial (writers only): see `C09_linearizable`; restated for the record. -/
+theorem C14_partial_writers_only {Sh : Type} (σ0 : Sh) (progs : List (List (Conc.Op Sh))) (sched : List Nat)
+    (hd : Done (run (init σ0 progs) sched)) :
+    (run (init σ0 progs) sched).σ = serial σ0 (run (init σ0 progs) sched).log :=
+  (linearizable σ0 progs sched hd).1
+
+/-- C14 is false of the design: in the reader/writer machine (writer = `acq; load; body; save;
+rel`, reader = `read file; suspend+; merge; suspend-` WITHOUT the lock, sharing the object's
+memory and suspend counter) there is a schedule that runs both to completion and leaves the
+file without the writer's update: the reader's suspend window makes the writer's load and save
+no-ops. -/
+theorem C14_counterexample_suspend :
+    ∃ sch : List Bool,
+      (RW.runRW ⟨5, 5, 0, 0, false⟩ RW.writer RW.reader sch).file = 5 ∧
+      (RW.runRW ⟨5, 5, 0, 0, false⟩ RW.writer RW.reader sch).lock = false ∧
+      sch.count true = RW.writer.length ∧ sch.count false = RW.reader.length :=
+  RW.lost_update_schedule
+
+/-- ... while the writer alone does update the file. -/
+theorem C14_writer_alone :
+    (RW.runRW ⟨5, 5, 0, 0, false⟩ RW.writer [] (List.replicate 5 true)).file = 6 :=
+  RW.writer_alone_updates
+
 end SC.Props
